@@ -180,6 +180,36 @@ def triples():
     return out
 
 
+def finishing_overlaps():
+    """the run's completion transition is held inside a plugin's on_finished / on_change_state implementation (a slow
+    plugin); meanwhile another task asks for the next cycle (reset, then run).  The next run's hooks must not begin
+    before the held implementation has returned: when it resumes, the state is still 'finished' and the run's
+    arguments are still withdrawn (C12), and the state sequence stays on the diagram (C01)"""
+    out = []
+    for hook in ('on_finished', 'on_change_state', 'on_end_run'):
+        for second in (['reset'], ['reset', 'run']):
+            steps = START + RUN_A + [['hold', hook], ['child', 'return'], settle(0.4)]
+            for api in second:
+                steps += [['call', 'B', api], settle(0.3)]
+            steps += [['sample'], ['release_all'], ['unhold', hook], settle(0.4), ['child', 'return'], settle(0.4), ['child_reset'],
+                      ['call', 'C', 'reset'], settle()] + one_run('C') + [['sample']]
+            out.append(S(steps, dict(family='finishing-overlap', gate=hook, second='+'.join(second), expect_complete=False)))
+    return out
+
+
+def failing_to_deliver():
+    """the statement is a callable that cannot be sent to the child: the child process is spawned, the call never reaches
+    it, the run ends with the error -- 'finished' only once that child has gone, and a reset + run right after it never
+    has two children (C15); the run's record is complete (C02)"""
+    out = []
+    for api in ('run', 'run_session', 'run_and_continue'):
+        steps = START + [['call', 'A', api], settle(0.05), ['sample'], settle(0.3), ['call', 'A', 'result'], settle(),
+                         ['call', 'B', 'reset', {'statement': 'B'}], settle(0.05), ['call', 'B', 'run'], settle(0.05), ['sample'], settle(0.4),
+                         ['child', 'return'], settle(0.5), ['sample']]
+        out.append(S(steps, dict(family='failing-to-deliver', api=api, expect_complete=False), config={'statement': '@unpicklable'}))
+    return out
+
+
 def registration():
     """a second plugin registered / unregistered between runs (and in the middle of one)"""
     out = []
